@@ -26,31 +26,46 @@
 #   LV names ("list variables of interest") of a function: the names record_a record_b star_fields out_fields up_fields fields
 #   record; every name used in a list position in that function (base of x[..], x.length, len(x), receiver of a mutating or
 #   copying method, iterated, destructured, emitted, operand of list +); every name assigned from a list-valued expression
-#   (LV name, copy, concatenation, display, comprehension); every parameter bound to one at a call.  Never: self this
-#   query_context.
+#   (LV name, copy, concatenation, display, comprehension, get_record / get_rhs call); every parameter bound to one at a call.
+#   Never: self this query_context.  Every other name is UNTRACKED: its value is treated as an opaque cell value.
+#   DEPTH of an LV name (flow-insensitive maximum over its binding sites and over everything stored into it): 1 = a flat row
+#   (get_record(), copies / concatenations of rows, displays without LV elements, a write(..) parameter named like a row),
+#   2 = a container of rows ((key, record), [1, record], a join match), 3 = get_rhs(..); unknown (99) for anything read back
+#   from untracked state.  x[i] / iteration / destructuring of a depth-1 object is a CELL (RCell: never owned - rows are copied
+#   shallowly, so a cell reached through any row may be shared with a source row); of a deeper object it is RElem.
 #   rhs     y = x -> RVar;  x[:] x[a:b] list(x) tuple(x) sorted(x) x.slice() x.copy() Array.from(x) -> RCopy;  [..]+x+[..],
 #           x.concat(..) -> RConcat (always a new object);  displays, comprehensions, x.map/filter -> RFresh;  x[i], for t in x,
-#           a,b,t = x, x.pop() -> RElem x (only when the target is an LV name; otherwise a scalar);  *.get_record() *.get_rhs()
-#           -> RSrc;  any other expression bound to an LV name -> RSrc in engine code, RLoad in a writer method when rooted at
-#           self/this or a local;  constants -> RFresh (a dummy non-source object).
+#           a,b,t = x, x.pop() -> RCell x / RElem x by depth (bound only when the target is an LV name);  *.get_record()
+#           *.get_rhs() *.get_join_records() -> RSrc;  any other expression bound to an LV name -> RSrc in engine code, RLoad in
+#           a writer method when rooted at self/this or a local;  constants -> RFresh (a dummy non-source object).
 #   mutate  x[i] = v, del x[i], x += .., x.append/insert/extend/sort/reverse/pop/remove/clear/push/unshift/splice/shift/fill/
-#           add/set/update/delete(..) -> SSetItem x.
+#           add/set/update/delete(..) -> SSetItem x  (x may be an expression: x[i].append(..) mutates the cell / element).
 #   emit    query_context.writer.write(..), self.subwriter.write(..), this.subwriter.write(..) -> SEmit of the last argument
-#           (and of any other LV argument).
-#   store   an LV name placed in a display, stored in an attribute / subscript (also as a key), or passed to a mutating
-#           method of another object -> SStore.
-#   unknown an LV name (or an element of one) passed to a function that is neither defined in the translated files nor in the
-#           read-only whitelist, or receiving an unknown method call -> SSetItem + SStore (accepted only for a clean object).
+#           (and of any other list-valued argument).
+#   store   an LV object placed in a display, stored in an attribute / subscript (also as a key), or passed to a mutating
+#           method of another object -> SStore.  A CELL stored into a flat row (display of depth 1, row.append(cell),
+#           row[i] = cell) needs no statement: the cells of a row are never trusted; stored anywhere else -> SStore (rejected).
+#   unknown an LV object (or an element / cell of one) passed to a function that is neither defined in the translated files nor
+#           in the read-only whitelist, or receiving an unknown method call -> SSetItem + SStore (accepted only for a clean
+#           object, never for a cell).
 #   read    comparisons, truth tests, len, isinstance, str, JSON.stringify, S.join(x), x.join/indexOf/findIndex/..., x.length,
-#           string formatting: no statement.
+#           string formatting, csv_utils.*(..) (the CSV string helpers), methods of self.stream / this.stream / sys.stdout (I/O):
+#           no statement.
 #   control if/else -> SIf; for/while -> SFor; raise/throw -> nothing (every statement may raise in the semantics);
 #           return/break/continue only in tail position (an `if c: jump` in the middle of a block moves the rest of the block
-#           into the other branch); a return inside a loop is accepted when nothing with an effect follows the loop;
-#           try/except whose handlers all re-raise and have no effect -> the body; any other try -> every statement of the body
-#           optional (recursively), then the handlers optional, then finally.
+#           into the branches that fall through); a return inside a loop is accepted when nothing with an effect follows the
+#           loop; try/except whose handlers all re-raise and have no effect -> the body; any other try -> every statement of the
+#           body optional (recursively), then the handlers optional, then finally.
+#   calls   a function defined in the translated files (also self.m(..), and self.attr(..) when attr is only ever assigned
+#           methods of the class: one branch per candidate) is inlined with fresh variables; a recursive call is an unknown call.
 #   A statement or expression outside these forms raises TranslateError naming file:line.
-#   NOT OF INTEREST (skipped): a statement in which no LV name occurs and that is not one of the forms above; bodies of
-#   lambdas / function expressions that mention no LV name of the enclosing function; constructors.
+#   NOT OF INTEREST (no statement): a statement in which no LV name occurs and that is not one of the forms above; bodies of
+#   lambdas / function expressions that mention no LV name of the enclosing function (refused if they do); constructors
+#   (__init__ / constructor are not translated: the writers' state is assumed to hold no source object when the query starts);
+#   set_header / get_warnings; the contents of UNTRACKED names.
+#   ASSUMED: the only calls that return source objects are get_record / get_rhs / get_join_records; an unknown callee reaches
+#   list objects only through its arguments; query_context.writer / self.subwriter / this.subwriter are the only ways to the
+#   next writer.
 import ast
 import importlib
 import json
